@@ -3,6 +3,7 @@ package harness
 import (
 	"fmt"
 	"strings"
+	"sync"
 
 	"github.com/fluffle/goirc/client"
 
@@ -233,10 +234,240 @@ func c09Scenario(p c09Params) *explore.Scenario {
 	return sc
 }
 
+// ---------------------------------------------------------------- concurrent senders of messages that are split
+
+// c09SplitCall issues sender s's k-th message: a different command method and target per sender, a text of about
+// 150 bytes, split into several lines by SplitLen = 60.
+func c09SplitCall(c *client.Conn, s, k int) {
+	text := fmt.Sprintf("s%d-m%d ", s, k) + strings.Repeat(fmt.Sprintf("w%d%d ", s, k), 30)
+	switch s % 4 {
+	case 0:
+		c.Privmsg(fmt.Sprintf("#c%d", s), text)
+	case 1:
+		c.Notice(fmt.Sprintf("nick%d", s), text)
+	case 2:
+		c.Ctcp(fmt.Sprintf("#c%d", s), "ACTION", text)
+	case 3:
+		c.CtcpReply(fmt.Sprintf("nick%d", s), "FINGER", text)
+	}
+}
+
+func c09SplitScenario(senders, msgs, chanCap int) *explore.Scenario {
+	sc := &explore.Scenario{
+		Family: "sendsplit",
+		Name:   fmt.Sprintf("sendsplit/senders=%dx%d/cap=%d", senders, msgs, chanCap),
+		Params: map[string]interface{}{"senders": senders, "messages": msgs, "chancap": chanCap},
+		Opt:    vx.Options{ChanCap: chanCap, MaxSteps: 60000},
+	}
+	mod := func(cfg *client.Config) { cfg.SplitLen = 60 }
+	sc.Main = func(env *vx.Env) {
+		c := NewClient("me", mod)
+		if err := c.Connect(); err != nil {
+			return
+		}
+		vx.Quiesce()
+		done := vx.NewCounter("senders-done")
+		for s := 0; s < senders; s++ {
+			s := s
+			env.Go(fmt.Sprintf("sender%d", s), func() {
+				for k := 0; k < msgs; k++ {
+					c09SplitCall(c, s, k)
+				}
+				done.Add(1)
+			})
+		}
+		done.WaitFor(senders)
+		vx.Quiesce()
+		vx.Observe("ev", fmt.Sprintf("end connected=%v", c.Connected()))
+	}
+	// what each sender's messages look like on the wire when it is alone: a sequential run of the same calls
+	var once sync.Once
+	var expect [][]string
+	sc.Check = func(o *vx.Outcome) []explore.Finding {
+		if fs := stdOutcome(o); fs != nil {
+			return fs
+		}
+		once.Do(func() {
+			for s := 0; s < senders; s++ {
+				s := s
+				po := RunSeq(vx.Options{}, func(env *vx.Env) {
+					sess, err := StartSession(env, "me", mod, nil)
+					if err != nil {
+						return
+					}
+					n := len(sess.Wire())
+					for k := 0; k < msgs; k++ {
+						c09SplitCall(sess.C, s, k)
+					}
+					vx.Quiesce()
+					vx.Observe("pilot", strings.Join(sess.WireSince(n), "\n"))
+					sess.End()
+				})
+				var ls []string
+				if p := po.Log("pilot"); len(p) == 1 {
+					ls = strings.Split(p[0], "\n")
+				}
+				expect = append(expect, ls)
+			}
+		})
+		if len(o.Conns) != 1 {
+			return []explore.Finding{{Oracle: "no-connection", Msg: "no socket"}}
+		}
+		var fs []explore.Finding
+		tr := o.Conns[0].Transcript()
+		bad := func(id, msg string) {
+			fs = append(fs, explore.Finding{Oracle: id, Msg: msg + " :: wire=" + Q(tr)})
+		}
+		owner := map[string]int{}
+		for s, ls := range expect {
+			if len(ls) < 2*msgs {
+				return []explore.Finding{{Oracle: "pilot-failed", Msg: fmt.Sprintf("the sequential run of sender %d produced %d lines; the messages were meant to be split", s, len(ls))}}
+			}
+			for _, l := range ls {
+				owner[l] = s
+			}
+		}
+		next := make([]int, senders)
+		for _, l := range o.Conns[0].Lines() {
+			if strings.HasPrefix(l, "NICK ") || strings.HasPrefix(l, "USER ") {
+				continue
+			}
+			s, ok := owner[l]
+			switch {
+			case !ok:
+				bad("line-corrupted", fmt.Sprintf("line %q on the wire is not one any sender's messages are split into", l))
+			case next[s] < len(expect[s]) && expect[s][next[s]] == l:
+				next[s]++
+			default:
+				bad("order", fmt.Sprintf("line %q of sender %d is duplicated or out of order (expected next: %q)", l, s, append(expect[s], "<nothing more>")[next[s]]))
+			}
+			if len(fs) > 0 {
+				return fs
+			}
+		}
+		for s := range expect {
+			if next[s] != len(expect[s]) {
+				bad("line-lost", fmt.Sprintf("sender %d: %d of its %d lines reached the wire (connection still up)", s, next[s], len(expect[s])))
+			}
+		}
+		ev := o.Log("ev")
+		if len(ev) == 0 || ev[len(ev)-1] != "end connected=true" {
+			bad("connection-dropped", "the connection went down during the scenario")
+		}
+		return fs
+	}
+	return sc
+}
+
+// c09LadderSession hands Raw one line of each of the given lengths over one connection and compares the wire.
+func c09LadderSession(lens []int) (oracle, msg string) {
+	line := func(n int) string {
+		h := fmt.Sprintf("L%d:", n)
+		if n <= len(h) {
+			return h[:n]
+		}
+		return h + strings.Repeat("abcdefghij", n/10+1)[:n-len(h)]
+	}
+	var want []string
+	for _, n := range lens {
+		want = append(want, line(n))
+	}
+	var got string
+	o := RunSeq(vx.Options{}, func(env *vx.Env) {
+		s, err := StartSession(env, "me", nil, nil)
+		if err != nil {
+			return
+		}
+		n0 := len(s.VC.Transcript())
+		for _, l := range want {
+			s.C.Raw(l)
+		}
+		vx.Quiesce()
+		got = s.VC.Transcript()[n0:]
+		s.End()
+	})
+	exp := strings.Join(want, "\r\n") + "\r\n"
+	if o.Kind != "ok" {
+		return o.Kind, "session outcome " + o.Kind
+	}
+	if got == exp {
+		return "", ""
+	}
+	k := 0
+	for k < len(got) && k < len(exp) && got[k] == exp[k] {
+		k++
+	}
+	at := strings.Count(exp[:k], "\n")
+	if at >= len(want) {
+		at = len(want) - 1
+	}
+	return "not-byte-for-byte", fmt.Sprintf("the bytes on the wire differ from the lines handed to Raw from byte %d on (in the line of %d bytes): got %s, expected %s", k, len(want[at]), Q(got[k:minInt(len(got), k+40)]), Q(exp[k:minInt(len(exp), k+40)]))
+}
+
+// c09LadderJob: "byte for byte" for every line length: one sender, Raw lines of every length from 1 to 1300 and
+// around the 4096 / 8192-byte buffer sizes, 100 per session.
+func c09LadderJob() Job {
+	return Job{Name: "sendorder/length-ladder", Cost: 20, Run: func(jc *JobCtx) *JobResult {
+		e := NewEnum("sendorder/length-ladder")
+		var lens []int
+		for n := 1; n <= 1300; n++ {
+			lens = append(lens, n)
+		}
+		for _, c := range []int{2048, 4096, 8192} {
+			for n := c - 6; n <= c+6; n++ {
+				lens = append(lens, n)
+			}
+		}
+		for i := 0; i < len(lens); i += 100 {
+			j := i + 100
+			if j > len(lens) {
+				j = len(lens)
+			}
+			for _, n := range lens[i:j] {
+				e.Case(fmt.Sprint(n))
+			}
+			if oracle, msg := c09LadderSession(lens[i:j]); oracle != "" {
+				e.Fail("sendorder", oracle, fmt.Sprintf("Raw lines of lengths %d..%d", lens[i], lens[j-1]), msg, map[string]interface{}{"ladder": lens[i:j]})
+			}
+			if jc.Expired() {
+				e.Incomplete("deadline")
+				break
+			}
+		}
+		return e.Done()
+	}}
+}
+
 func init() {
+	prev := replayInput
+	replayInput = func(v *Violation) int {
+		l, ok := v.Params["ladder"].([]interface{})
+		if v.Property != "C09" || !ok {
+			if prev != nil {
+				return prev(v)
+			}
+			fmt.Println("violation has no schedule; input:", v.Input)
+			return 0
+		}
+		var lens []int
+		for _, x := range l {
+			f, _ := x.(float64)
+			lens = append(lens, int(f))
+		}
+		oracle, msg := c09LadderSession(lens)
+		if oracle != "" {
+			fmt.Printf("FINDING oracle=%s %s\n", oracle, msg)
+		}
+		if oracle == v.Oracle {
+			fmt.Println("REPRODUCED")
+			return 1
+		}
+		fmt.Println("NOT REPRODUCED")
+		return 0
+	}
 	Register(&Prop{
 		ID:   "C09",
-		Rule: "2-3 concurrent user senders x 1-3 lines (alternating Raw / Privmsg), optionally a foreground handler answering 1-2 incoming events with 1-2 lines, server reading at once or through a 64-byte pipe drained line by line by a server task, queue capacity 32 / 2 / 1, senders started after or during registration; small harnesses are explored without any deviation bound (state cache), the rest within K<=2-3; distinct = distinct wire transcripts per scenario",
+		Rule: "2-3 concurrent user senders x 1-3 lines (alternating Raw / Privmsg), optionally a foreground handler answering 1-2 incoming events with 1-2 lines, server reading at once or through a 64-byte pipe drained line by line by a server task, queue capacity 32 / 2 / 1, senders started after or during registration; 2-4 concurrent senders of messages that SplitLen = 60 splits into 3-4 lines each (Privmsg, Notice, Ctcp, CtcpReply to different targets; expected lines = what the same calls produce alone); one sender with Raw lines of every length 1..1300 and around 2048 / 4096 / 8192 bytes compared byte for byte; small harnesses are explored without any deviation bound (state cache), the rest within K<=2-3; distinct = distinct wire transcripts per scenario",
 		Assumptions: []string{
 			"interleavings at synchronisation/channel/socket granularity (DESIGN.md 3.8)",
 			"unbounded mode relies on the happens-before state cache; cache-on/off agreement is cross-checked at a small bound",
@@ -286,6 +517,16 @@ func init() {
 					add(c09Params{Senders: 1, Lines: 2, Events: 2, HLines: 2, Slow: slow, ChanCap: cap, Pings: 1, HPong: true}, bs, []int{1, 2, 3}, 30, false)
 				}
 			}
+			// concurrent senders whose messages are split into several lines (different command methods and targets)
+			if tier == "thorough" {
+				jobs = append(jobs, ExploreJob("C09", ExploreSpec{Sc: c09SplitScenario(2, 1, 0), Variants: []int{1}, Budgets: unb, Cache: true}, 600))
+			} else {
+				jobs = append(jobs, ExploreJob("C09", ExploreSpec{Sc: c09SplitScenario(2, 1, 0), Variants: []int{1, 2, 3}, Budgets: b3, Cache: true}, 100))
+			}
+			jobs = append(jobs, ExploreJob("C09", ExploreSpec{Sc: c09SplitScenario(2, 1, 1), Variants: []int{1, 2, 3}, Budgets: bs, Cache: true}, 30))
+			jobs = append(jobs, ExploreJob("C09", ExploreSpec{Sc: c09SplitScenario(3, 2, 0), Variants: []int{1, 2, 3}, Budgets: b2, Cache: true}, 30))
+			jobs = append(jobs, ExploreJob("C09", ExploreSpec{Sc: c09SplitScenario(4, 1, 2), Variants: []int{1, 2, 3}, Budgets: b2, Cache: true}, 30))
+			jobs = append(jobs, c09LadderJob())
 			// many lines through the real queue: senders really block on the 32-slot queue when the server is slow
 			add(c09Params{Senders: 2, Lines: 40, Slow: true}, []explore.Budget{{0, 0}, {1, 0}}, []int{1, 2, 3}, 60, false)
 			return jobs
